@@ -68,6 +68,12 @@ CLAIMS = {
         "note": TRUST + " A leaked (mem::forget) drain is excluded: std leaves the resulting contents unspecified.",
         "technique": "runtime monitoring: recorded operation histories checked online against a sequential Vec<Color> model (differential, full-state comparison after every op); Miri + ASan on subsets",
     },
+    "C14": {
+        "text": "Runtime monitors with an independent model: (1) white (1,1,1), all 256 8-bit grey levels and seeded greys of every RGB standard of the conversion table (sRGB, linear, Adobe, Rec.709/2020, Display P3, DCI-P3, ProPhoto, sRGB primaries with whites E and A; f32/f64) are converted to every colorimetric type of the group: white must land on the white point / L=100 / Oklab (1,0,0), every grey must have zero chroma or saturation and come back with equal components; CAM16 lightness 100 for the adopted white incl. dynamic whites; (2) hard-coded RGB<->XYZ matrices are compared with the matrix derived from primaries and white (Lindbloom) and with each other (mutual inverses), and the public Matrix3 API (matrix_from_rgb, matrix_from_xyz, then, invert, identity, convert) is checked on 15 spaces incl. tuple spaces whose matrices are derived at run time; (3) all 16x16 ordered white-point pairs x {Bradford, VonKries, UnitMatrix} x f32/f64 through AdaptFromUnclamped/AdaptIntoUnclamped and the deprecated AdaptInto: source white -> destination white, bit-exact identity between equal whites, there-and-back, agreement with M^-1 diag M, and adaptation_matrix with dynamic (measured, Y != 1) white points.",
+        "design_ref": "DESIGN.md section 3, C14",
+        "note": TRUST + " Neutrality of Ok* colours reached through XYZ is limited by the recorded M1 white mismatch (finding C01/C02) and judged under that class.",
+        "technique": "runtime monitoring: invariant oracle (neutral in = neutral out, white = white point) plus differential check of matrices and adaptation against an independent derivation",
+    },
     "C04": {
         "text": "Runtime monitor + sanitizers over the whole casting layer: for 88 instantiations (every colour struct incl. the CAM16 family, Alpha, PreAlpha, Packed<_, [T;N]>, Packed<_, uN>, Luma as uint; f32/f64/u8/u16/u32 and u64/u128 for uint casts) every free function of palette::cast, every method of the cast traits and the std From/AsRef/AsMut/TryFrom impls is called on buffers of all lengths 0..=3N+2 and Vec capacities of every residue; each event checks same address, exact length/capacity scaling, declared field order through named field access with a distinct sentinel per component (alpha last), bit-exact round trip, acceptance iff length (and capacity) is a multiple, and that a rejected buffer comes back with the same pointer, length, capacity and contents. The same driver runs under Miri (stacked borrows, strict provenance, symbolic alignment; thorough adds tree borrows and all types) and under ASan/LSan, with the cast vectors pushed to, shrunk and dropped so that a wrong capacity becomes a heap/layout error; the native run has std ub_checks on.",
         "design_ref": "DESIGN.md section 3, C04",
